@@ -29,6 +29,8 @@ type c01Hist struct {
 	unknownSigns                    int
 	votes, commits, stops, byzvotes int
 	byzCmd                          uint64
+	fast                            bool
+	tsigs                           int
 }
 
 func (h *c01Hist) id(x hotstuff.Hash) uint64 {
@@ -44,6 +46,7 @@ func newC01Hist(w *wWorld, spec wSpec) *c01Hist {
 	h := &c01Hist{w: w, spec: spec, intern: map[hotstuff.Hash]uint64{}, seenCom: map[NodeID]int{}, bytesIdx: map[string]hotstuff.Hash{}}
 	h.intern[hotstuff.Hash{}] = 0
 	h.intern[hotstuff.GetGenesis().Hash()] = 1
+	h.fast = spec.consensus == "fasthotstuff" || spec.consensus == nameVulnerableFHS
 	h.seenBlk = 1 // genesis is the model's initial block
 	h.idxBlk = 0
 	return h
@@ -82,7 +85,7 @@ func (h *c01Hist) observe(nd *wNode) {
 	}
 	for ; h.seenBlk < len(w.blockSeq); h.seenBlk++ {
 		b := w.blockSeq[h.seenBlk]
-		h.emit("EAddBlock "+h.blockTerm(b), fmt.Sprintf("block #%d view=%d parent=#%d qc=#%d proposer=%d", h.id(b.Hash()), b.View(), h.id(b.Parent()), h.id(b.QuorumCert().BlockHash()), b.Proposer()))
+		h.emit(h.pfx()+"AddBlock "+h.blockTerm(b), fmt.Sprintf("block #%d view=%d parent=#%d qc=#%d proposer=%d", h.id(b.Hash()), b.View(), h.id(b.Parent()), h.id(b.QuorumCert().BlockHash()), b.Proposer()))
 	}
 	type pv struct {
 		node NodeID
@@ -95,11 +98,15 @@ func (h *c01Hist) observe(nd *wNode) {
 		if bh, ok := h.bytesIdx[string(s.msg)]; ok {
 			if h.isByzID(s.node.ReplicaID) {
 				h.byzvotes++
-				h.emit(fmt.Sprintf("EByzVote %d %d", s.node.ReplicaID, h.id(bh)), fmt.Sprintf("byz %v signs vote for #%d", s.node, h.id(bh)))
+				h.emit(fmt.Sprintf("%sByzVote %d %d", h.pfx(), s.node.ReplicaID, h.id(bh)), fmt.Sprintf("byz %v signs vote for #%d", s.node, h.id(bh)))
 			} else {
 				h.votes++
 				honestVotes = append(honestVotes, len(h.events))
-				h.emit(fmt.Sprintf("EVote %d %d @LOCK@", s.node.ReplicaID, h.id(bh)), fmt.Sprintf("replica %v signs vote for #%d", s.node, h.id(bh)))
+				if h.fast {
+					h.emit(fmt.Sprintf("FVote %d %d %s", s.node.ReplicaID, h.id(bh), h.aggTerm(bh)), fmt.Sprintf("replica %v signs vote for #%d %s", s.node, h.id(bh), h.aggDesc(bh)))
+				} else {
+					h.emit(fmt.Sprintf("EVote %d %d @LOCK@", s.node.ReplicaID, h.id(bh)), fmt.Sprintf("replica %v signs vote for #%d", s.node, h.id(bh)))
+				}
 				q := w.blocks[bh].QuorumCert().BlockHash()
 				lastVoteQC = &q
 			}
@@ -107,9 +114,18 @@ func (h *c01Hist) observe(nd *wNode) {
 			v := binary.LittleEndian.Uint64(s.msg)
 			if !h.isByzID(s.node.ReplicaID) {
 				h.stops++
-				h.emit(fmt.Sprintf("EStop %d %d", s.node.ReplicaID, v), fmt.Sprintf("replica %v signs timeout for view %d", s.node, v))
+				h.emit(fmt.Sprintf("%sStop %d %d", h.pfx(), s.node.ReplicaID, v), fmt.Sprintf("replica %v signs timeout for view %d", s.node, v))
 			}
-		} else if !c01IsTimeoutBytes(s.msg) {
+		} else if ti, ok := w.timeoutIdx[string(s.msg)]; ok {
+			if h.fast {
+				h.tsigs++
+				if h.isByzID(s.node.ReplicaID) {
+					h.emit(fmt.Sprintf("FByzTimeout %d %d %d", s.node.ReplicaID, uint64(ti.view), h.id(ti.qc)), fmt.Sprintf("byz %v signs timeout message view=%d reporting QC of #%d", s.node, ti.view, h.id(ti.qc)))
+				} else {
+					h.emit(fmt.Sprintf("FTimeout %d %d %d", s.node.ReplicaID, uint64(ti.view), h.id(ti.qc)), fmt.Sprintf("replica %v signs timeout message view=%d reporting QC of #%d", s.node, ti.view, h.id(ti.qc)))
+				}
+			}
+		} else {
 			h.unknownSigns++
 		}
 	}
@@ -135,12 +151,49 @@ func (h *c01Hist) observe(nd *wNode) {
 			if lastVoteQC != nil {
 				h1 = h.id(*lastVoteQC)
 			}
-			h.emit(fmt.Sprintf("ECommit %d %d [%s]", nd.id.ReplicaID, h1, strings.Join(obs, "; ")), fmt.Sprintf("replica %v commits [%s] while processing a block whose QC certifies #%d", nd.id, strings.Join(obs, " "), h1))
+			h.emit(fmt.Sprintf("%sCommit %d %d [%s]", h.pfx(), nd.id.ReplicaID, h1, strings.Join(obs, "; ")), fmt.Sprintf("replica %v commits [%s] while processing a block whose QC certifies #%d", nd.id, strings.Join(obs, " "), h1))
 		}
 	}
 }
 
-func c01IsTimeoutBytes(m []byte) bool { return len(m) >= 12 && len(m) < 12+8+32+4096 && len(m) != 8 }
+func (h *c01Hist) pfx() string {
+	if h.fast {
+		return "F"
+	}
+	return "E"
+}
+
+// aggTerm renders the aggregate QC that accompanied the proposal of block bh (if any) as the
+// model's evidence: (view, [(signer, block hash of the QC it reported)]).
+func (h *c01Hist) aggTerm(bh hotstuff.Hash) string {
+	a, ok := h.w.aggOf[bh]
+	if !ok || a == nil {
+		return "None"
+	}
+	var ids []int
+	if a.Sig() != nil {
+		a.Sig().Participants().ForEach(func(id hotstuff.ID) { ids = append(ids, int(id)) })
+	}
+	sort.Ints(ids)
+	var xs []string
+	for _, id := range ids {
+		q, ok := a.QCs()[hotstuff.ID(id)]
+		if !ok {
+			xs = append(xs, fmt.Sprintf("(%d, 999998)", id))
+			continue
+		}
+		xs = append(xs, fmt.Sprintf("(%d, %d)", id, h.id(q.BlockHash())))
+	}
+	return fmt.Sprintf("(Some (%d, [%s]))", uint64(a.View()), strings.Join(xs, "; "))
+}
+
+func (h *c01Hist) aggDesc(bh hotstuff.Hash) string {
+	a, ok := h.w.aggOf[bh]
+	if !ok || a == nil {
+		return "(plain QC rule)"
+	}
+	return fmt.Sprintf("(aggregate QC of view %d: %s)", a.View(), h.aggTerm(bh))
+}
 
 // ---- Byzantine coalition ----
 
@@ -177,21 +230,73 @@ func (w *wWorld) learnQC(qc hotstuff.QuorumCert) {
 	w.qcs = append(w.qcs, qc)
 }
 
+func (w *wWorld) learnAgg(a hotstuff.AggregateQC) {
+	for _, x := range w.aggqcs {
+		if x.View() == a.View() {
+			return
+		}
+	}
+	w.aggqcs = append(w.aggqcs, a)
+}
+
+// highest QC (by stated view) among those an aggregate QC reports
+func wAggHigh(a hotstuff.AggregateQC) (hotstuff.QuorumCert, bool) {
+	var best hotstuff.QuorumCert
+	found := false
+	ids := make([]int, 0)
+	for id := range a.QCs() {
+		ids = append(ids, int(id))
+	}
+	sort.Ints(ids)
+	for _, id := range ids {
+		q := a.QCs()[hotstuff.ID(id)]
+		if !found || q.View() > best.View() {
+			best, found = q, true
+		}
+	}
+	return best, found
+}
+
 func (w *wWorld) byzHandle(nd *wNode, payload any) {
 	switch m := payload.(type) {
 	case hotstuff.VoteMsg:
 		nd.votesSeen[m.PartialCert.BlockHash()] = append(nd.votesSeen[m.PartialCert.BlockHash()], m.PartialCert)
 	case hotstuff.ProposeMsg:
-		w.regBlock(m.Block)
+		w.regProposal(&m)
 		nd.blockchain.Store(m.Block)
 		w.learnQC(m.Block.QuorumCert())
+		if m.AggregateQC != nil {
+			w.learnAgg(*m.AggregateQC)
+		}
 	case hotstuff.NewViewMsg:
 		if qc, ok := m.SyncInfo.QC(); ok {
 			w.learnQC(qc)
 		}
+		if a, ok := m.SyncInfo.AggQC(); ok {
+			w.learnAgg(a)
+		}
 	case hotstuff.TimeoutMsg:
 		if qc, ok := m.SyncInfo.QC(); ok {
 			w.learnQC(qc)
+		}
+		if a, ok := m.SyncInfo.AggQC(); ok {
+			w.learnAgg(a)
+		}
+		if m.MsgSignature != nil {
+			dup := false
+			for _, t := range w.timeoutsSeen[m.View] {
+				if t.ID == m.ID {
+					dup = true
+				}
+			}
+			if !dup {
+				w.timeoutsSeen[m.View] = append(w.timeoutsSeen[m.View], m)
+				if ts := w.timeoutsSeen[m.View]; len(ts) >= nd.config.QuorumSize() {
+					if a, err := nd.auth.CreateAggregateQC(m.View, ts[:nd.config.QuorumSize()]); err == nil {
+						w.learnAgg(a)
+					}
+				}
+			}
 		}
 	}
 	w.byzAssemble(nd)
@@ -284,12 +389,28 @@ func (h *c01Hist) byzAct(nd *wNode) string {
 					vv = qb.View() // view not above the certified block's
 				}
 			}
+			var agg *hotstuff.AggregateQC
+			if h.fast && len(w.aggqcs) > 0 && w.rng.Intn(10) < 6 {
+				a := w.aggqcs[len(w.aggqcs)-1]
+				if w.rng.Intn(10) < 4 {
+					a = w.aggqcs[w.rng.Intn(len(w.aggqcs))] // possibly an old one
+				}
+				if hq, ok := wAggHigh(a); ok {
+					agg = &a
+					if w.rng.Intn(10) < 8 {
+						qc = hq
+						if parent != qc.BlockHash() && w.rng.Intn(100) < 85 {
+							parent = qc.BlockHash()
+						}
+					}
+				}
+			}
 			h.byzCmd++
 			batch := &clientpb.Batch{Commands: []*clientpb.Command{{ClientID: 99, SequenceNumber: h.byzCmd, Data: []byte("byz")}}}
 			b := hotstuff.NewBlock(parent, qc, batch, vv, nd.id.ReplicaID)
-			w.regBlock(b)
+			p := hotstuff.ProposeMsg{ID: nd.id.ReplicaID, Block: b, AggregateQC: agg}
+			w.regProposal(&p)
 			nd.blockchain.Store(b)
-			p := hotstuff.ProposeMsg{ID: nd.id.ReplicaID, Block: b}
 			for _, id := range w.order {
 				to := w.nodes[id]
 				if to.id == nd.id {
@@ -351,6 +472,7 @@ func (h *c01Hist) byzAct(nd *wNode) string {
 		if err != nil {
 			return "noop"
 		}
+		w.regTimeout(*tm)
 		for _, id := range w.order {
 			to := w.nodes[id]
 			if to.id != nd.id && w.rng.Intn(4) > 0 {
@@ -440,7 +562,7 @@ func c01Run(spec wSpec, steps int) (*c01Result, error) {
 				h.observe(nil)
 			} else {
 				if p, ok := m.payload.(hotstuff.ProposeMsg); ok {
-					w.regBlock(p.Block)
+					w.regProposal(&p)
 				}
 				to.eventLoop.AddEvent(m.payload)
 				w.drain(to)
@@ -548,6 +670,7 @@ func c01IDs(ids []hotstuff.ID) string {
 func TestVerifC01(t *testing.T) {
 	v := verifNew("C01")
 	s := v.Stream("hist", "hist_mismatches", 12)
+	sf := v.Stream("fhist", "fhist_mismatches", 12)
 	nh := v.Pick(40, 1200)
 	steps := v.Pick(350, 500)
 	emitHist := func(cons string, n int, spec wSpec, res *c01Result, tag string) {
@@ -583,7 +706,11 @@ func TestVerifC01(t *testing.T) {
 		} else {
 			v.Oracle(true, "", "", nil)
 		}
-		v.Case(s, fmt.Sprintf("(%s, %s, %s, [%s])", c01RsTerm(cons), c01IDs(reps), c01IDs(byzAll), strings.Join(h.events, ";\n  ")), meta)
+		if h.fast {
+			v.Case(sf, fmt.Sprintf("(%s, %s, [%s])", c01IDs(reps), c01IDs(byzAll), strings.Join(h.events, ";\n  ")), meta)
+		} else {
+			v.Case(s, fmt.Sprintf("(%s, %s, %s, [%s])", c01RsTerm(cons), c01IDs(reps), c01IDs(byzAll), strings.Join(h.events, ";\n  ")), meta)
+		}
 	}
 	for _, cons := range []string{"chainedhotstuff", "simplehotstuff"} {
 		for _, variant := range []string{"honest", "bad-parent", "low-view"} {
@@ -597,7 +724,17 @@ func TestVerifC01(t *testing.T) {
 			emitHist(cons, 4, res.hist.spec, res, "script-"+variant)
 		}
 	}
-	for _, cons := range []string{"chainedhotstuff", "simplehotstuff"} {
+	for _, variant := range []string{"fhs-honest", "fhs-stale-highqc", "fhs-old-aggqc"} {
+		res, err := c01DirectedFast(variant, 7)
+		if err != nil {
+			t.Fatalf("world: %v", err)
+		}
+		if variant == "fhs-honest" && len(res.commits["r1n0"]) == 0 {
+			v.Oracle(false, "harness:control-script-commits-nothing:fasthotstuff", "the well-formed scripted fast-hotstuff chain committed nothing", nil)
+		}
+		emitHist("fasthotstuff", 4, res.hist.spec, res, "script-"+variant)
+	}
+	for _, cons := range []string{"chainedhotstuff", "simplehotstuff", "fasthotstuff"} {
 		for i := 0; i < nh; i++ {
 			n := 4
 			if i%3 == 2 {
@@ -657,7 +794,7 @@ func c01Directed(cons, variant string, seed int64) (*c01Result, error) {
 				continue
 			}
 			if p, ok := m.payload.(hotstuff.ProposeMsg); ok {
-				w.regBlock(p.Block)
+				w.regProposal(&p)
 			}
 			to.eventLoop.AddEvent(m.payload)
 			w.drain(to)
@@ -701,6 +838,182 @@ func c01Directed(cons, variant string, seed int64) (*c01Result, error) {
 		}
 		if !found {
 			break // honest replicas did not certify the block: the attack is blocked
+		}
+	}
+	return c01Finish(h, live, 0), nil
+}
+
+// c01DirectedFast: replica 4 of 4 is Byzantine and leads views 1..3 and 5..; replica 1 leads view 4.
+// Honest replicas only change view through timeouts (the aggregate timeout rule ignores plain
+// QCs), so the script fires every honest timer between proposals.
+//
+//	"fhs-honest":       well-formed chain b1 <- b2 <- b3 <- ... by the scripted leader (control).
+//	"fhs-stale-highqc": after b1 is committed (processing b3) everybody times out; if honest
+//	                    replicas still report the genesis QC in their timeouts, the honest leader
+//	                    of view 4 proposes on top of genesis with an aggregate QC, and the
+//	                    Byzantine leader then gets that fork committed: [b1, b4'] with b4'.parent = genesis.
+//	"fhs-old-aggqc":    the Byzantine leader of view 5 re-uses the aggregate QC of view 1 (whose
+//	                    highest QC is genesis) on a fresh block on top of genesis.
+func c01DirectedFast(variant string, seed int64) (*c01Result, error) {
+	spec := wSpec{consensus: "fasthotstuff", n: 4, byz: []hotstuff.ID{4}, seed: seed}
+	for i := 0; i < 20; i++ {
+		spec.leaders = append(spec.leaders, 4)
+	}
+	if variant == "fhs-stale-highqc" {
+		spec.leaders[3] = 1 // view 4 is led by honest replica 1
+	}
+	w, err := newWorld(spec)
+	if err != nil {
+		return nil, err
+	}
+	h := newC01Hist(w, spec)
+	B := w.nodes[NodeID{ReplicaID: 4}]
+	var live []*wNode
+	for _, id := range w.order {
+		if nd := w.nodes[id]; !nd.byz {
+			live = append(live, nd)
+		}
+	}
+	for _, id := range w.order {
+		w.partition[id] = 0
+	}
+	flush := func() {
+		for guard := 0; len(w.pending) > 0 && guard < 20000; guard++ {
+			m := w.pending[0]
+			w.pending = w.pending[1:]
+			to := w.nodes[m.to]
+			if to.byz {
+				w.byzHandle(to, m.payload)
+				h.observe(nil)
+				continue
+			}
+			if p, ok := m.payload.(hotstuff.ProposeMsg); ok {
+				w.regProposal(&p)
+			}
+			to.eventLoop.AddEvent(m.payload)
+			w.drain(to)
+			h.observe(to)
+		}
+	}
+	timeouts := func() {
+		for _, nd := range live {
+			nd.eventLoop.AddEvent(hotstuff.TimeoutEvent{View: nd.viewStates.View()})
+			w.drain(nd)
+			h.observe(nd)
+		}
+		flush()
+	}
+	mkBatch := func(k int) *clientpb.Batch {
+		return &clientpb.Batch{Commands: []*clientpb.Command{{ClientID: 99, SequenceNumber: uint64(k), Data: []byte("byz")}}}
+	}
+	propose := func(view hotstuff.View, parent hotstuff.Hash, qc hotstuff.QuorumCert, agg *hotstuff.AggregateQC) (*hotstuff.Block, bool) {
+		b := hotstuff.NewBlock(parent, qc, mkBatch(int(view)+100), view, 4)
+		p := hotstuff.ProposeMsg{ID: 4, Block: b, AggregateQC: agg}
+		w.regProposal(&p)
+		B.blockchain.Store(b)
+		for _, to := range live {
+			w.byzSendTo(B, to, p)
+		}
+		flush()
+		if pc, err := B.auth.CreatePartialCert(b); err == nil {
+			B.votesSeen[b.Hash()] = append(B.votesSeen[b.Hash()], pc)
+		}
+		w.byzAssemble(B)
+		h.observe(nil)
+		for _, q := range w.qcs {
+			if q.BlockHash() == b.Hash() {
+				return b, true
+			}
+		}
+		return b, false
+	}
+	qcOf := func(b *hotstuff.Block) hotstuff.QuorumCert {
+		for _, q := range w.qcs {
+			if q.BlockHash() == b.Hash() {
+				return q
+			}
+		}
+		return hotstuff.QuorumCert{}
+	}
+	gen := hotstuff.GetGenesis()
+	genQC := B.viewStates.HighQC()
+	w.learnQC(genQC)
+	// views 1..3: b1 <- b2 <- b3
+	qc, parent := genQC, gen.Hash()
+	ok := true
+	for v := 1; v <= 3 && ok; v++ {
+		var b *hotstuff.Block
+		b, ok = propose(hotstuff.View(v), parent, qc, nil)
+		if ok {
+			qc, parent = qcOf(b), b.Hash()
+		}
+		timeouts() // honest replicas move to view v+1 (and report their high QC)
+	}
+	switch variant {
+	case "fhs-honest":
+		for v := 4; v <= 6 && ok; v++ {
+			var b *hotstuff.Block
+			b, ok = propose(hotstuff.View(v), parent, qc, nil)
+			if ok {
+				qc, parent = qcOf(b), b.Hash()
+			}
+			timeouts()
+		}
+	case "fhs-stale-highqc":
+		// view 4: the honest leader (replica 1) proposed when it entered view 4; find its block
+		flush()
+		var b4 *hotstuff.Block
+		for _, b := range w.blockSeq {
+			if b.View() == 4 && b.Proposer() == 1 {
+				b4 = b
+			}
+		}
+		if b4 != nil {
+			if pc, err := B.auth.CreatePartialCert(b4); err == nil {
+				B.votesSeen[b4.Hash()] = append(B.votesSeen[b4.Hash()], pc)
+			}
+			w.byzAssemble(B)
+			h.observe(nil)
+			timeouts()
+			q4 := qcOf(b4)
+			if q4.BlockHash() == b4.Hash() {
+				qc, parent = q4, b4.Hash()
+				ok = true
+				for v := 5; v <= 7 && ok; v++ {
+					var b *hotstuff.Block
+					b, ok = propose(hotstuff.View(v), parent, qc, nil)
+					if ok {
+						qc, parent = qcOf(b), b.Hash()
+					}
+					timeouts()
+				}
+			}
+		}
+	case "fhs-old-aggqc":
+		timeouts() // view 4 -> 5 without a proposal
+		var old *hotstuff.AggregateQC
+		for i := range w.aggqcs {
+			if w.aggqcs[i].View() == 1 {
+				old = &w.aggqcs[i]
+			}
+		}
+		if old != nil {
+			if hq, okh := wAggHigh(*old); okh {
+				cur := live[0].viewStates.View()
+				b, ok2 := propose(cur, hq.BlockHash(), hq, old)
+				if ok2 {
+					qc, parent = qcOf(b), b.Hash()
+					timeouts()
+					for k := 0; k < 3 && ok2; k++ {
+						var nb *hotstuff.Block
+						nb, ok2 = propose(live[0].viewStates.View(), parent, qc, nil)
+						if ok2 {
+							qc, parent = qcOf(nb), nb.Hash()
+						}
+						timeouts()
+					}
+				}
+			}
 		}
 	}
 	return c01Finish(h, live, 0), nil
